@@ -445,7 +445,26 @@ def r7_tasks_hold_no_module(ctx):
     ctx.ok('closure / future aggregates inspected: %d' % n, None)
 
 
+def r8_timer_futures_keep_no_waker(ctx):
+    """a timer future (Sleep, and Timeout / Interval built on it) keeps no Waker of its own: the waker is the task's handle on itself —
+    a task that is owned only by its waker (a module driving its own executor) and awaits such a future would own itself, timer pending
+    or not.  The one registered waker lives in the driver's slot entry, which is released when the timer fires or the future is dropped."""
+    ctx.set_rule('C20.R8')
+    P = ctx.P
+    n = 0
+    for k, a in sorted(P.adts.items()):
+        if not k.startswith(('des::time::sleep::', 'des::time::timeout::', 'des::time::interval::')) or '::_::' in k:
+            continue
+        n += 1
+        for v in a.get('variants', []):
+            for fd in v['fields']:
+                ctx.check('task::Waker' not in fd['ty'] and 'task::wake::Waker' not in fd['ty'], 'timer-future-keeps-waker:%s' % k.split('::')[-1],
+                          'timer futures store no Waker (it would be a strong self-reference of the awaiting task)', None, fd['ty'][:120])
+    ctx.floor('timer future types inspected', n, 3)
+
+
 def run(ctx):
+    r8_timer_futures_keep_no_waker(ctx)
     r7_tasks_hold_no_module(ctx)
     r1_shared_cycles(ctx)
     r2_breakers(ctx)
